@@ -235,6 +235,15 @@ func runTables(c *ctx, which string) error {
 		for _, sha := range []bool{false, true} {
 			e := tableCase{cfg: tcfg{SHA256: sha}, min: 1, max: 1}
 			runTableCase(c, &e, nil, map[string]int{})
+			// block sizes around the smallest one that holds the file header and a block header:
+			// an empty table and a table of one ref
+			for _, bs := range []uint32{1, 2, 23, 24, 25, 27, 28, 29, 31, 32, 33, 57, 58, 73, 74} {
+				e := tableCase{cfg: tcfg{SHA256: sha, BlockSize: bs}, min: 1, max: 1}
+				runTableCase(c, &e, nil, map[string]int{})
+				one := e
+				one.refs = []reftable.RefRecord{{RefName: "r0", UpdateIndex: 1, Value: make([]byte, e.cfg.hashSize())}}
+				runTableCase(c, &one, []string{"sr:"}, map[string]int{})
+			}
 		}
 	}
 	n := 250
